@@ -3,7 +3,7 @@ import re, collections
 import gen, implrun, findings
 from common import pmap, run_driver_parallel
 
-ORACLE_RE = re.compile(r'MODEL (.*) ;; IMPL (.*) ;; SAME=(\d)$')
+ORACLE_RE = re.compile(r'MODEL (.*) ;; IMPL (.*) ;; SAME=(\d)(?: DOM=(\d))?$')
 
 
 def parse_kv(s):
@@ -11,11 +11,11 @@ def parse_kv(s):
 
 
 class Result:
-    __slots__ = ('family', 'p', 'o', 'case', 'impl', 'model_or', 'impl_or', 'same', 'raw', 'model_line', 'partial')
+    __slots__ = ('family', 'p', 'o', 'case', 'impl', 'model_or', 'impl_or', 'same', 'raw', 'model_line', 'partial', 'dom')
 
     def __init__(self, family, p, o, case, impl):
         self.family = family; self.p = p; self.o = o; self.case = case; self.impl = impl
-        self.model_or = {}; self.impl_or = {}; self.same = None; self.raw = None; self.model_line = None; self.partial = None
+        self.model_or = {}; self.impl_or = {}; self.same = None; self.raw = None; self.model_line = None; self.partial = None; self.dom = None
 
 
 def make_cases(rng, n, rules, families=None, lowprec=0.0, equal_ranks=0.3, rational_meek=0.0, options_fn=None):
@@ -73,7 +73,7 @@ def evaluate(cases, limit=20.0):
         r.raw = g
         m = ORACLE_RE.match(g)
         if m:
-            r.model_or = parse_kv(m.group(1)); r.impl_or = parse_kv(m.group(2)); r.same = (m.group(3) == '1')
+            r.model_or = parse_kv(m.group(1)); r.impl_or = parse_kv(m.group(2)); r.same = (m.group(3) == '1'); r.dom = m.group(4)
             if r.partial is not None:       # crashed run: the outcome class is what is compared with the model
                 r.same = (r.model_or.get('CRASH') == r.impl.split(' ', 1)[1])
         else:
@@ -95,6 +95,8 @@ def branch_counters(results):
     c = collections.Counter()
     for r in results:
         c['rule:' + r.o['rule']] += 1
+        if r.dom is not None:
+            c['theorem_domain(caseOK):' + ('in' if r.dom == '1' else 'out')] += 1
         c['family:' + r.family] += 1
         c['arith:' + str(r.o.get('arithmetic', 'statutory'))] += 1
         if not r.impl.startswith('OK '):
